@@ -424,6 +424,18 @@ def check_protocol(repo: Repo, rep: Report, h: Harness, jp: JavaProtocol) -> Non
             else:
                 rep.finding("SGR-3", SUGAR, "SugarLikeBackend.solve_irrefutably", "deduction-mode reply parsing",
                             f"reply {reply_ded(descs[0]) if descs else ''!r} gives result {r!r}, sol {sols!r}; expected True and [-2, None, False, None, True]")
+            # no answer key at all: the key line must still be sent (its presence selects deduction mode in the wrapper)
+            vs, b = fresh(cls)
+            descs.clear()
+            h.reply = lambda desc: (descs.append(desc), d_sat + "\n")[1]
+            r = h.cw.method(b, "solve_irrefutably")([False] * 5)
+            last = descs[0].split("\n")[-1] if descs else None
+            if last == jp.key_marker and r is True:
+                rep.ok("SGR-4", f"{cls}: with no answer key the (empty) key line {jp.key_marker!r} is still sent, so the wrapper answers in deduction mode")
+            else:
+                rep.finding("SGR-4", SUGAR, "SugarLikeBackend.solve_irrefutably", "answer-key line without keys",
+                            f"with no answer key registered the description ends with {last!r} instead of the key line {jp.key_marker!r}: "
+                            "the wrapper then answers in answer-finder format, which the deduction parser misreads")
             # sat with no decided fact at all
             vs, b = fresh(cls)
             h.reply = d_sat + "\n"
